@@ -20,7 +20,7 @@ META = {
         'quick': {'depth': '1 (all 8 kinds x 10 segment choices) and 3 (kinds dict/list/object/None, 4 segment choices)',
                   'list length': '0..3 symbolic', 'integer segments': 'unbounded symbolic (Path/T spelling)',
                   'string segments': "alphabet {'a','b','zz','0','1','-1','x',''}"},
-        'thorough': {'depth': '1, 2 (all kinds, all segment choices), 3 and 4 (restricted kinds)', 'list length': '0..4'},
+        'thorough': {'depth': '1 (all lengths 0..3), 2 (all 8 x 9 kind pairs x 3 spellings, every segment choice at the second level, presence and sharing symbolic, container lengths 2), 3 and 4 (representative kinds, lengths and presence fixed)', 'symbolic list length': '0..4'},
     },
     'stubs': ['S2 traceback.format_exc constant (walk_wrapped only)', 'S3 glom_debug=True',
               'S4 state reset'],
@@ -419,26 +419,28 @@ def obligations(tier):
                 obs.append(Ob(walk2, fixed={'k0': k0, 'spy': False, 'spelling': sp, 'p0': True, 'p1': True, 'l0': 2,
                                             'l1': 2}, pre=pre, name='walk2_%s_sp%d' % (KINDS[k0], sp)))
     else:
+        # sized so that every obligation closes (a few hundred paths each): all kind pairs x spellings for depth 2 with every
+        # segment choice at the second level; depth 3 and 4 over the representative kinds with lengths / presence fixed
         for k0 in range(8):
             for k1 in range(9):
-                for spy in (False, True):
-                    pre = ' and '.join(['0 <= c0 < %d' % NSEG, '0 <= c1 < %d' % NSEG, '0 <= spelling <= 2',
-                                        '0 <= l0 <= 3 and 0 <= l1 <= 3 and len(xs) <= 4'])
-                    obs.append(Ob(walk2, fixed={'k0': k0, 'k1': k1, 'spy': spy}, pre=pre,
-                                  name='walk2_%s_%s_spy%d' % (KINDS[k0], KINDS[k1], spy)))
+                for sp in range(3):
+                    pre = ' and '.join([_in('c0', [0, 1, 2, 6, 8, 9]), '0 <= c1 < %d' % NSEG, 'len(xs) <= 4'])
+                    obs.append(Ob(walk2, fixed={'k0': k0, 'k1': k1, 'spelling': sp, 'spy': (k0 + k1 + sp) % 2 == 0, 'l0': 2, 'l1': 2}, pre=pre,
+                                  name='walk2_%s_%s_sp%d' % (KINDS[k0], KINDS[k1], sp)))
         for k0 in R4:
             for k1 in R4:
                 for sp in range(3):
                     pre = ' and '.join([_in('k2', R4 + [8]), _in('c0', seg_small), _in('c1', seg_small),
-                                        _in('c2', [0, 1, 2, 8, 9]), '0 <= l0 <= 3 and 0 <= l1 <= 3 and 0 <= l2 <= 3 and len(xs) <= 4'])
-                    obs.append(Ob(walk3, fixed={'k0': k0, 'k1': k1, 'spelling': sp, 'spy': True}, pre=pre,
+                                        _in('c2', [0, 1, 2, 8, 9]), 'len(xs) <= 4'])
+                    obs.append(Ob(walk3, fixed={'k0': k0, 'k1': k1, 'spelling': sp, 'spy': True, 'p0': True, 'p1': True, 'p2': True,
+                                                'l0': 2, 'l1': 3, 'l2': 2}, pre=pre,
                                   name='walk3_%s_%s_sp%d' % (KINDS[k0], KINDS[k1], sp)))
         for k0 in [0, 2, 4]:
             for k1 in [0, 2, 4]:
                 for sp in range(3):
                     pre = ' and '.join([_in('k2', [0, 2, 4]), _in('k3', R4), _in('c0', [0, 2]), _in('c1', [0, 8]),
                                         _in('c2', [0, 2, 8]), _in('c3', seg_small)])
-                    obs.append(Ob(walk4, fixed={'k0': k0, 'k1': k1, 'spelling': sp}, pre=pre,
+                    obs.append(Ob(walk4, fixed={'k0': k0, 'k1': k1, 'spelling': sp, 'p0': True, 'p1': True, 'p2': True, 'p3': True}, pre=pre,
                                   name='walk4_%s_%s_sp%d' % (KINDS[k0], KINDS[k1], sp)))
     for k0 in ([0, 2, 4] if q else range(8)):
         for sp in range(3):
